@@ -1,34 +1,33 @@
-"""C11 -- every privileged action requires its permission; non-members hold none.
+"""C08 -- password login needs the right password and yields exactly the configured rights.
 
-Model: Signalling.tla (one action per handled client message, all membership states incl. 'join refused', every stimulus kind,
-token creation) folded through SigMonitor: an unauthorised or spoofed stimulus has no effect beyond a refusal reply to its sender
-(C11), tokens are created only within the creator's rights (A3); exhaustive for 3 clients x 2 groups up to 3 stimuli.
-Conformance: TLC-simulated stimuli sequences + regression behaviours against the real server (child process, real websockets),
-judged by the same monitor (Trace_Signalling)."""
+Model: Auth.tla's password table (entry kind x wildcard kind x credential x role x allow-recording x unrestricted-tokens: 12 960 rows,
+enumerated completely, with shadowing / empty-record invariants) and hash table (432 rows of tool parameters); Signalling.tla for the
+history part (the rights a login yields after any moderation of OTHER users).
+Conformance: every row through the real Description.GetPermission with real JSON descriptions and real plain/pbkdf2/bcrypt records;
+every hash row through galenectl's real makePassword and the server's Password.Match; joined messages of the real server against the
+same role table (sig.py, incl. the F10 regression behaviour)."""
 import shutil
 import common as C
-import sig
+import auth, sig, c11
 
 PID = "C08"
-
-
-def model(rep, w, tier):
-    r = C.tlc(w, "Signalling.tla", "MC_Signalling.cfg", workers=C.NCPU, timeout=1500, heap="20g", deadlock=False)
-    rep.model("MC_Signalling.cfg (3 clients, 2 groups, every stimulus in every membership state, <=3 stimuli; exhaustive)", r, exhaustive=True)
-    if r.violated:
-        raise C.Inconclusive("Signalling model violates %s\n%s" % (r.violated, r.out[-2000:]))
-    C.must_complete(r, "MC_Signalling")
 
 
 def run(tier, replay=None):
     rep = C.Report(PID)
     w = C.scratch("c08-")
     try:
-        model(rep, w, tier)
-        sig.run(rep, w, tier, PID, replay)
-        rep.assumptions += ["sequential driver with a quiescence barrier after every stimulus: effects are attributed to the stimulus that precedes them",
-                            "rights are what the server itself told each client in joined messages (their correctness is C08's business)",
-                            "WHIP ingest (A5) is judged by C17's HTTP table, not here"]
+        rp = None
+        if replay:
+            import json
+            rp = json.load(open(replay))["replay"]
+        if not rp or "rows" in rp:
+            auth.run_tables(rep, w, tier, PID, ["password", "hash"], replay)
+        if not rp or "behaviours" in rp:
+            c11.model(rep, w, tier)
+            sig.run(rep, w, tier, PID, replay)
+        rep.assumptions += ["strength of the hash functions is out of scope; bcrypt cost 4 and few pbkdf2 iterations are used to keep the tables fast",
+                            "what a MALFORMED record matches is judged only as 'never authorises'"]
         return rep.finish()
     finally:
         shutil.rmtree(w, ignore_errors=True)
